@@ -6,5 +6,5 @@ From Mos Require Import model.Dap model.DapStep.
 
 Extraction "../extract/gen/c19.ml"
   Z.add Z.mul Z.sub Z.opp Z.div Z.modulo Z.ltb Z.leb Z.eqb Z.of_nat Z.to_nat Z.of_N Z.to_N N.add N.mul
-  Dap.step_act Dap.run_obs Dap.init Dap.hit DapStep.step_over DapStep.step_out DapStep.step_out_pinned DapStep.exec_in
-  DapStep.Known_stepout_stack_dirty DapStep.Known_breakpoint_self_loop.
+  Dap.step_act Dap.run_obs Dap.init Dap.hit DapStep.step_over DapStep.step_out DapStep.step_over_pinned DapStep.step_out_pinned DapStep.exec_in
+  DapStep.Known_stepout_stack_dirty DapStep.Known_breakpoint_self_loop DapStep.Known_next_reenters_call_site.
